@@ -482,6 +482,32 @@ pub fn run_c20(ctx: &Ctx) -> i32 {
         let mut app = full(2).build(init_fn);
         probe(&mut app)
     };
+    // the other ways of getting a default application must give the same application
+    {
+        use cw_multi_test::{custom_app, no_init, App as DefaultApp, BasicAppBuilder};
+        let mut variants: Vec<(&str, Vec<String>)> = vec![];
+        reset_init();
+        variants.push(("AppBuilder::default()", probe(&mut AppBuilder::default().build(init_fn))));
+        reset_init();
+        variants.push(("AppBuilder::new_custom::<Empty, Empty>()", probe(&mut BasicAppBuilder::<Empty, Empty>::new_custom().build(init_fn))));
+        for (name, mut t) in [
+            ("App::default()", { reset_init(); let mut a = DefaultApp::default(); probe(&mut a) }),
+            ("App::new(no_init)", { reset_init(); let mut a = DefaultApp::new(no_init); probe(&mut a) }),
+            ("custom_app::<Empty, Empty, _>(no_init)", { reset_init(); let mut a = custom_app::<Empty, Empty, _>(no_init); probe(&mut a) }),
+        ] {
+            // these run no init function of ours: entries 2 (init write) and 3 (init count) are compared modulo that
+            t[2] = t_default[2].clone();
+            t[3] = t_default[3].clone();
+            variants.push((name, t));
+        }
+        for (name, t) in variants {
+            evals += ENTRIES.len() as u64;
+            states += 1;
+            if t != t_default {
+                ctx.violation(&format!("c20:default-constructor-differs:{}", name), json!({"engine": "builders", "constructor": name, "differences": diff_entries(&t, &t_default)}));
+            }
+        }
+    }
     // every probe entry must discriminate default / tag 1 / tag 2 (otherwise the canonical full
     // chain itself lost a component)
     for (i, (owner, label)) in ENTRIES.iter().enumerate() {
